@@ -8,43 +8,53 @@ KEEP_FIRST = 0
 
 TRUSTED = [
     "Lean 4 kernel; axioms of every theorem audited (propext, Classical.choice, Quot.sound at most)",
-    "hand-written model lean/CppUModel/Model/Asserts.lean of UtestShell::assert*, doubles_equal, the macros of UtestMacros.h and the "
-    "C entry points of TestHarness_c.cpp; tied to the code by (a) translate/extract_asserts.py, which re-reads every assert body / macro / "
-    "C entry point on every run (one countCheck() first, condition texts, failure classes, parameter types, cast expressions, the 0xff of "
-    "BYTES_EQUAL, the full list of check macros of both headers incl. every _TEXT form, CHECK_THROWS / TEST_EXIT, and the platform predicates "
-    "IsNanImplementation / IsInfImplementation / PlatformSpecificFabs of src/Platforms/Gcc/UtestPlatform.cpp) into Gen/AssertShapes.lean, compared with the model's tables by `decide` theorems, and (b) the h_c03 correspondence of this run",
-    "textbook string functions of lean/CppUModel/Spec/Text.lean stand for SimpleString::StrCmp/StrNCmp/contains/equalsNoCase/containsNoCase "
-    "(their equality with the code's loops is C13's subject; here it is observed by the correspondence on every generated string pair)",
+    "translate/extract_asserts_ast.py (clang++-14 typed JSON AST -> Lean): doubles_equal, the 19 UtestShell::assert*/fail bodies, the 18 C entry "
+    "points of TestHarness_c.cpp and ~570 typed instantiations of the check macros of both headers are regenerated as executable Lean "
+    "definitions (Gen/AssertFns.lean, Gen/AssertMacros.lean) on every run and proved EQUAL to the hand-written model for all operands "
+    "(gen_*_eq, gen_macro_*, gen_c_entries); a translator bug would have to coincide with a model bug, and both are run against the "
+    "real code by the h_c03 correspondence of this run; clang's own typing (implicit conversions, usual arithmetic conversions) is trusted",
+    "translate/extract_asserts.py re-reads every assert body / macro / C entry point as token text (one countCheck() first, condition texts, "
+    "failure classes, parameter types, cast expressions, the full list of check macros of both headers incl. every _TEXT form, CHECK_THROWS / "
+    "TEST_EXIT, the platform predicates IsNanImplementation / IsInfImplementation / PlatformSpecificFabs) into Gen/AssertShapes.lean, compared "
+    "with the model's tables by `rfl` theorems",
+    "the primitives Asserts.P.StrCmp/StrNCmp/MemCmp/SimpleString/equalsNoCase/contains/containsNoCase (= textbook Text.cmp/ncmp/isInfix/lower, "
+    "memCmp) stand for the SimpleString functions the assert bodies call; Props/C03x.lean proves the five string checks executed on C13's "
+    "bounded-buffer models return exactly these verdicts with no out-of-bounds access; C13 ties those models to SimpleString.cpp; here "
+    "every generated string / block pair is also observed",
     "IEEE-754: finite subtraction, fabs and <= of the hardware are what the standard says (the class logic NaN / infinities / which "
-    "comparison is made is proved for every interpretation of the finite operations; the driver runs the same hardware operations)",
-    "LP64 and the C++ conversion rules as written in the model (conversion to an n bit integer type = value modulo 2^n, integral promotion, "
-    "usual arithmetic conversions); g++ on x86-64: char is signed",
+    "comparison is made is proved for every interpretation of the finite operations; the driver runs the same hardware operations); "
+    "PlatformSpecificIsNan/IsInf/Fabs are isnan/isinf/fabs (shape check of src/Platforms/Gcc/UtestPlatform.cpp)",
+    "LP64, g++/clang on x86-64: char is signed; harness/config mirrors the cmake-generated configuration (CPPUTEST_USE_LONG_LONG = 1)",
     "the fixture (TestTestingFixture) reports the failure and check counters of the TestResult the check wrote to",
 ]
 ASSUMPTIONS = [
     "operands are pure expressions (a macro may evaluate an operand more than once)",
     "a non-NULL string operand is NUL terminated; a non-NULL block operand has at least `size` readable bytes",
-    "the test terminator leaves the test (default terminators of the exception build: NormalTestTerminator throws, the C entry points longjmp; "
-    "this is modelled as `runBody` and observed by the `seq` ops; the -fno-exceptions build is C01's subject; with a crashing terminator the "
-    "process ends instead)",
-    "operand evaluation counts (CHECK_EQUAL: 1 when passing, 4 when failing; CHECK_COMPARE: 1 / 2; function-style macros: 1) are an observation "
-    "about the code (upstream documents the re-evaluation), compared with the model by the `evals` ops, not part of the oracle",
+    "the test terminator leaves the test (NormalTestTerminator throws, the C entry points longjmp, the crash-on-fail terminators call the "
+    "crash method first and then do the same; modelled as `runBody`, observed by the `seq` / `seqc` ops; the -fno-exceptions build is C01's "
+    "subject; with the real crash method the process ends instead)",
+    "operand evaluation counts (CHECK_EQUAL: 1 when passing, 4 when failing; CHECK_COMPARE: 1 / 2; CHECK_EQUAL_ZERO: literal + 1 / 4; every "
+    "function-style macro: 1) and the crash-method call count are observations about the code, compared with the model by the `evals` / `seqc` "
+    "ops, not part of the oracle",
     "doubles: 'differ by no more than the tolerance' is read with the IEEE-754 rounded difference fabs(a-b) <= tol, as every C implementation "
     "of the check computes it (the exact real difference can exceed tol by less than half an ulp of the difference)",
     "CHECK_EQUAL / CHECK_COMPARE use the operands' own operators: for integer operands of different signedness the language converts a "
     "negative value to unsigned BEFORE the check sees it; the oracle demands the mathematical relation whenever the conversions keep the "
-    "values and only the counting rule otherwise (the model reproduces the conversion exactly in both cases)",
+    "values and only the counting rule otherwise (the model reproduces the conversion exactly in both cases, and gen_macro_CHECK_EQUAL / "
+    "gen_macro_CHECK_COMPARE_* prove the model's conversion rules equal to clang's on all 64 operand type pairs)",
+    "checks executed outside a running test (OutsideTestRunnerUTest) and the build without long long are not covered",
 ]
 RULE = ("one op = one macro invocation in a fresh fixture; integer operands from the boundary lattice of each of the 8 types "
         "(min, min+1, -129..-127, -2..2, 126..129, 254..257, 2^15/2^16/2^31/2^32/2^63 neighbours, max-1, max) as ordered pairs, equal pairs and "
         "pairs equal modulo 2^8/2^32 frequent; doubles from all classes (+-0, subnormal, normal, +-DBL_MAX, +-inf, quiet/signalling/negative NaN, "
-        "neighbours one ulp apart) x tolerances (0, subnormal, finite, +inf, negative, NaN); strings over an alphabet around the case boundaries "
+        "neighbours one ulp apart) x tolerances (0, subnormal, finite, +inf, negative, NaN, the computed difference and its neighbours); strings over an alphabet around the case boundaries "
         "(@ A Z [ ` a z {, 0x01, 0x80, 0xff) with NULL/empty/prefix/case-swapped/substring relations and lengths 0..len+1..SIZE_MAX; blocks with "
         "interior NUL x NULL x length incl. 0; masks x operand types x byte counts 1,2,4,8; doubles beyond +-FLT_MAX (1e39, 1e300, 2e300, DBL_MAX) and "
-        "float-subnormal magnitudes; test bodies of several check statements (C++ and C style, passing prefix then failing checks, TEST_EXIT); "
-        "operands with side effects; every macro also in its _TEXT form; a deterministic sweep in every run: every macro, plain and _TEXT, at every "
-        "operand type over pairs differing in exactly one bit (0, 7, 8, 15, 16, 31, 32, 47, 63) and the distinguishing string / block / double "
-        "pairs; thorough: the lattices exhaustively (plain and _TEXT forms alike). "
+        "float-subnormal magnitudes; test bodies of several check statements (C++ and C style, passing prefix then failing checks, TEST_EXIT) under "
+        "the normal and the crash-on-fail terminators (seq / seqc: failures, checks, statements started, failed flag, crash calls); "
+        "operands with side effects for 25 macros (evals: pure, changing expected, changing actual, both); every macro also in its _TEXT form; a deterministic sweep in every run: every macro, plain and _TEXT, at every "
+        "operand type over pairs differing in exactly one bit (0, 7, 8, 15, 16, 31, 32, 47, 63), the distinguishing string / block / double "
+        "pairs, every seq step alone / after a passing prefix in both terminator modes, every evals macro on 8 operand streams; thorough: the lattices exhaustively (plain and _TEXT forms alike). "
         "non-trivial = a case with at least one failing and one passing check; distinct = distinct op sequences")
 
 TYPES = ["i8", "u8", "i16", "u16", "i32", "u32", "i64", "u64"]
@@ -286,11 +296,18 @@ def op_seq(rng):
     steps = []
     for i in range(n):
         steps.append(rng.choice(SEQ_PASS) if rng.random() < 0.55 else rng.choice(SEQ_STEPS))
-    return "seq " + " ".join(steps)
+    return ("seqc " if rng.random() < 0.3 else "seq ") + " ".join(steps)
+
+
+EVALS_ONCE = ["UNSIGNED_LONGS_EQUAL", "LONGLONGS_EQUAL", "UNSIGNED_LONGLONGS_EQUAL", "BYTES_EQUAL", "SIGNED_BYTES_EQUAL", "BITS_EQUAL",
+              "ENUMS_EQUAL_INT", "DOUBLES_EQUAL", "POINTERS_EQUAL", "C_INT", "C_LONG", "C_BOOL", "C_UBYTE", "C_BITS", "C_REAL", "CHECK",
+              "CHECK_TRUE", "CHECK_FALSE", "CHECK_C"]
+EVALS_ALL = ["CHECK_EQUAL", "CHECK_EQUAL_TEXT", "CHECK_COMPARE_lt", "CHECK_COMPARE_ge", "LONGS_EQUAL", "CHECK_EQUAL_ZERO"] + EVALS_ONCE
 
 
 def op_evals(rng):
-    m = rng.choice(["CHECK_EQUAL", "CHECK_EQUAL", "CHECK_COMPARE_lt", "LONGS_EQUAL"])
+    m = rng.choice(["CHECK_EQUAL", "CHECK_EQUAL", "CHECK_COMPARE_lt", "LONGS_EQUAL", "CHECK_EQUAL_ZERO", "CHECK_COMPARE_ge",
+                    "CHECK_EQUAL_TEXT"] + EVALS_ONCE)
     e0 = rng.randint(-5, 5)
     a0 = e0 if rng.random() < 0.4 else rng.randint(-5, 5)
     return "evals %s %d %d %d %d" % (m, e0, rng.choice([0, 0, 1, -1, 3]), a0, rng.choice([0, 0, 1, -2]))
@@ -479,7 +496,8 @@ def exhaustive(rng):
         for y in SEQ_STEPS:
             ops.append("seq %s %s" % (x, y))
             ops.append("seq cpp_pass c_pass %s %s cpp_fail c_fail" % (x, y))
-    for m in ("CHECK_EQUAL", "CHECK_COMPARE_lt", "LONGS_EQUAL"):
+            ops.append("seqc %s %s" % (x, y))
+    for m in EVALS_ALL:
         for e0 in (-1, 0, 1):
             for a0 in (-1, 0, 1):
                 for es in (0, 1, -1):
@@ -570,6 +588,16 @@ def sweep():
         ops.append("fail " + m)
     for k in ("nothing", "expected", "other", "other_class"):
         ops.append("throws " + k)
+    # every statement kind alone, after a passing prefix and in front of a failing tail: normal and crash-on-fail terminators
+    for x in SEQ_STEPS:
+        for kind in ("seq", "seqc"):
+            ops.append("%s %s" % (kind, x))
+            ops.append("%s cpp_pass c_pass cmp_pass %s cpp_fail c_fail" % (kind, x))
+    # operands with side effects: every macro of the `evals` op, pure / changing expected / changing actual / both
+    for m in EVALS_ALL:
+        for e0, es, a0, as_ in ((2, 0, 2, 0), (2, 0, 3, 0), (0, 0, 0, 0), (2, 1, 2, 0), (2, 0, 2, 1), (2, 1, 3, -1), (256, 0, 0, 0),
+                                (0, 0, 1, 1)):
+            ops.append("evals %s %d %d %d %d" % (m, e0, es, a0, as_))
     return ops
 
 
@@ -604,8 +632,14 @@ def generate(rng, tier):
 
 
 def translate(ctx):
-    from translate import extract_asserts
-    return extract_asserts.run()
+    from translate import extract_asserts, extract_asserts_ast
+    problems = []
+    for t in (extract_asserts, extract_asserts_ast):      # both always run: neither Gen file may keep text of another tree
+        try:
+            problems += list(t.run() or [])
+        except Exception as e:
+            problems.append("translator %s cannot translate the current source: %s" % (t.__name__, e))
+    return problems
 
 
 def _pairs(r):
@@ -637,8 +671,11 @@ def dclass(h):
 def observe(r, rep):
     for op, o in _pairs(r):
         kind = op[0]
-        if kind in ("seq", "evals"):
+        if kind in ("seq", "seqc"):
             rep.count("check.%s.%s" % (kind, "fail" if o[1] == "1" else "pass"))
+            continue
+        if kind == "evals":
+            rep.count("check.evals.%s.%s" % (op[1], "fail" if o[1] == "1" else "pass"))
             continue
         name = op[1] if kind not in ("enum",) else "ENUMS_EQUAL_TYPE"
         if kind in ("cmp", "dcmp"):
@@ -688,7 +725,7 @@ def observe(r, rep):
     for l in r.impl:
         if l == "> skip":
             rep.count("op.skipped_by_harness")
-        if l.startswith("> seq "):
+        if l.startswith("> seq ") or l.startswith("> seqc "):
             cur = l.split()[2:]
         elif l.startswith("ran ") and cur is not None:
             n = int(l.split()[1])
@@ -698,6 +735,8 @@ def observe(r, rep):
             else:
                 rep.count("branch.seq.ran_to_the_end")
             cur = None
+        elif l.startswith("crashed "):
+            rep.count("branch.seqc.crash_method_calls_%s" % l.split()[1])
         elif l.startswith("evals "):
             rep.count("observation.operand_evaluations.%s" % "_".join(l.split()[1:]))
         elif l.startswith("warn ") and l != "warn 0":
@@ -725,12 +764,21 @@ LEVEL_TEXT = ("Machine-checked Lean 4 theorems over an executable model of every
               "value whenever it is representable; strings: equality / first-n equality / case-folded equality / infix on NUL-free byte "
               "strings; blocks: first-n equality; bits: two's complement bits under the mask), counts exactly one check (a passing "
               "CHECK_COMPARE counts none), NULL equals only NULL, a zero length block always matches, NaN equals nothing, doubles are equal "
-              "iff same infinity or |a-b| <= tol for EVERY tolerance (finite, +-inf; IEEE class rules proved, finite arithmetic a parameter). A test body stops at its first failing check (C++ exception or C longjmp terminator): one failure per failing check, "
-              "nothing after it runs or is counted; CHECK_THROWS and CHECK_EQUAL_ZERO likewise. The model is tied to the code on every run by regenerated shape "
-              "tables (condition texts, failure classes, casts, countCheck first and once) checked by `decide`, by a differential harness "
-              "that runs every macro in a real fixture under ASan/UBSan, and by an independent specification oracle on the implementation's "
+              "iff same infinity or |a-b| <= tol for EVERY tolerance (finite, +-inf; IEEE class rules proved, finite arithmetic a parameter). "
+              "A test body stops at its first failing check (exception, longjmp or crash-on-fail terminator): a failure is recorded iff a failing "
+              "check is reached (body_failure_iff, both directions), exactly one, nothing after it runs or is counted; CHECK_THROWS and CHECK_EQUAL_ZERO likewise. "
+              "REGENERATED AND PROVED EQUAL on every run, from clang's typed AST of the current source: doubles_equal itself, all 19 assert bodies "
+              "(statement order, countCheck, NULL guards, casts), all 18 C entry points, and the expansion of every check macro of both headers "
+              "(plain and _TEXT) at every operand type it is driven with - 8 integer types, all 64 type pairs for CHECK_EQUAL / CHECK_COMPARE "
+              "(usual arithmetic conversions as clang inserts them), 64 underlying x operand types for ENUMS_EQUAL_TYPE, 24 operand x mask types "
+              "for BITS_EQUAL: ~600 typed expansions, each proved equal to the model function for all bit patterns, so the theorems speak "
+              "about what the source says at check time. Additionally the token-level shape tables (`rfl`), a differential harness "
+              "that runs every macro in a real fixture under ASan/UBSan, and an independent specification oracle on the implementation's "
               "own (failures, checks) observations.")
-LEVEL_NOTE = ("Trusted: Lean kernel; the hand-written model (validated by the shape tables and the correspondence of this run); that "
-              "Text.cmp/ncmp/isInfix/lower are what SimpleString computes (C13; observed here); IEEE finite arithmetic; LP64 conversion rules. "
-              "Not carried by theorems: operands with side effects, the failure texts (C14).")
-TECHNIQUE = "Lean 4 proofs over an executable model of all check macros + regenerated shape/cast tables + differential fixture harness with independent oracle"
+LEVEL_NOTE = ("Trusted: Lean kernel; clang's typing of the source and the AST-to-Lean translator (its output is proved equal to the hand model AND "
+              "run against the real code); that Text.cmp/ncmp/isInfix/lower are what SimpleString computes (C13 + the C03x composition; observed here); "
+              "IEEE finite arithmetic; LP64. Only observed (model diff, not oracle): operand evaluation counts, crash-method calls. "
+              "Not carried by theorems: operands with side effects, the failure texts (C14), CHECK_THROWS' try/catch (token shape + harness only), "
+              "checks outside a running test.")
+TECHNIQUE = ("Lean 4 proofs over an executable model of all check macros + clang-AST translation of doubles_equal / assert bodies / C entry points / "
+             "~600 typed macro expansions proved equal to the model + token shape tables + differential fixture harness with independent oracle")
